@@ -58,7 +58,7 @@ func awkStore() {
 
 var awkIDs = [][2]int{{1, 1}, {2, 1}, {3, 1}, {4, 1}, {5, 1}, {6, 1},
 	{20, 1}, {20, 2}, {20, 3}, {20, 4}, {20, 5}, {20, 6}, {20, 7}, {20, 8}, {20, 9},
-	{21, 1}, {21, 2}, {21, 3}, {21, 5}, {21, 6}, {21, 8}, {21, 9}, {22, 1}, {23, 1}, {24, 1}, {25, 1}, {26, 1}}
+	{21, 1}, {21, 2}, {21, 3}, {21, 5}, {21, 6}, {21, 8}, {21, 9}, {22, 1}, {23, 1}, {24, 1}, {25, 1}, {26, 1}, {27, 1}, {28, 1}, {29, 1}}
 
 func genAwkVal(r *rand.Rand) V {
 	switch r.Intn(6) {
